@@ -52,6 +52,8 @@ def _stringify_attribute(attribute: Stringifiable) -> str:
         return attribute
     elif isinstance(attribute, int):
         return str(attribute)
+    elif isinstance(attribute, float):
+        return str(int(attribute)) if attribute == int(attribute) else repr(attribute)
     elif isinstance(attribute, tuple):
         if len(attribute) == 1:
             return _stringify_attribute(attribute[0])
